@@ -45,6 +45,8 @@ pub fn check(case: &Case) -> CaseResult {
         Flavour::Blocking => "blocking",
         Flavour::Async => "async",
         Flavour::AsyncPending => "async_pending",
+        Flavour::BlockingInterrupted => "blocking_interrupted",
+        Flavour::AsyncCancelled => "async_cancelled",
     });
     if mimic || payload || multi_list || err_after || case.resps.len() >= 2 {
         r.nontrivial();
